@@ -21,6 +21,7 @@ from vz.harness import load as H
 from vz.harness import pkgs
 from vz.ref import schemadoc as R
 from vz.ref import schemanames as N
+from vz.ref import schemaprefix as PX
 
 ITEM_TAGS = ("key", "multikey", "section", "multisection")
 CONTAINER_TAGS = ("schema", "sectiontype")
@@ -628,13 +629,23 @@ def judge_outcome(o, expect):
         return None if o[0] == "accepted" else "rule-abiding-document-refused"
     if expect == "refuse":
         return None if o[0] in ("schema-error", "other-config-error") else "rule-violation-not-refused-at-load-time"
+    if expect == "unfound":
+        if o[0] in ("schema-error", "other-config-error"):
+            return None
+        if o[0] == "internal" and o[1].get("class") in UNFOUND_EXCEPTIONS:
+            return None
+        return "document-naming-a-nonexistent-datatype-accepted" if o[0] == "accepted" else \
+            "nonexistent-datatype-not-reported-as-schema-or-import-error"
     if expect == "total-at-load":
         return None if o[0] in ("accepted", "schema-error", "other-config-error") else "unspecified-region-not-total"
     return None if o[0] in ("accepted", "schema-error") else "unspecified-region-not-total"
 
 
 VERDICT_EXPECT = {"accept": "accept", "reject": "reject", "unspecified": "total"}
-EXPECT_TEXT = {"reject": "ZConfig.SchemaError from loadSchemaFile", "accept": "accepted",
+# what the import of a dotted name that names nothing may raise (Registry.get: "an (unspecified) exception")
+UNFOUND_EXCEPTIONS = ("ImportError", "ModuleNotFoundError", "AttributeError")
+EXPECT_TEXT = {"unfound": "not accepted: ZConfig.SchemaError (or the exception of the failed import) from loadSchemaFile",
+               "reject": "ZConfig.SchemaError from loadSchemaFile", "accept": "accepted",
                "total": "accepted or ZConfig.SchemaError",
                "refuse": "ZConfig.SchemaError (or another ConfigurationError) from loadSchemaFile",
                "total-at-load": "accepted, or ZConfig.SchemaError / another ConfigurationError from loadSchemaFile"}
@@ -1081,6 +1092,9 @@ def observe_files(files, main=XMAIN):
         return ("schema-error", str(e)[:120])
     except ZConfig.ConfigurationError as e:
         return ("other-config-error", type(e).__name__, str(e)[:120])
+    except ImportError as e:
+        # (the traceback is not walked: axis P meets tens of thousands of expected failed imports)
+        return ("internal", {"class": type(e).__name__, "msg": str(e)[:200], "where": "import"})
     except Exception as e:
         return ("internal", core.exc_desc(e))
 
@@ -1277,6 +1291,123 @@ def explore_xfile(arg, acc):
     return acc
 
 
+# ---------------------------------------------------------------------------
+# wave 5, axis P: the RESOLUTION of dotted datatype / keytype names through the prefixes.  Until now every datatype
+# name of the check had no dot (axis S: "dotted datatype names are not generated"), so which prefix a dot-relative
+# name is resolved against - and whether a rule-abiding document using one is accepted at all - was outside C10.
+# Here every datatype-bearing attribute (datatype / keytype of <schema>, of a section type, of a derived section type,
+# of a later sibling type; datatype of a key / multikey in each of them and of the schema's own items that follow the
+# types) carries every name of an alphabet of relative, absolute and stock names, in documents whose prefixes run over
+# every combination of {none, absolute, relative} on the document element and on each of the three section types;
+# the types live in the schema itself, in a component imported by a schema that has a prefix of its own, or in a base
+# schema file that a schema with a prefix of its own extends.  The names refer to the package trees vz.harness.c10r /
+# c10s in which every level publishes one name found at no other level: the reference (vz.ref.schemaprefix, from the
+# documentation) knows under which effective prefix a name names something.
+
+def px_params(tier):
+    A, B, C, O, P_ = PX.A, PX.B, PX.C, PX.O, PX.P
+    if tier == "quick":
+        return {"p0": (None, A, B, O), "pI": (None, P_), "pt1": (None, ".inner", A, P_), "pd": (None, ".inner", O),
+                "pt2": (None, ".inner"), "names": PX.NAMES_QUICK}
+    return {"names": PX.NAMES, "p0": (None, A, B, O), "pI": (None, A, P_), "pt1": (None, ".inner", ".inner.inner", A, B, O, P_),
+            "pd": (None, ".inner", A, O), "pt2": (None, ".inner", O)}
+
+
+def px_descs(params, layout, p0, pI):
+    for pt1 in params["pt1"]:
+        for pd in params["pd"]:
+            for pt2 in params["pt2"]:
+                yield (layout, p0, pI, pt1, pd, pt2)
+
+
+def px_shards(tier):
+    out = []
+    for mode in (("single",) if tier == "quick" else ("single", "pairs")):
+        P = px_params(tier if mode == "single" else "quick")
+        for layout in sorted(PX.LAYOUTS):
+            for p0 in P["p0"]:
+                for pI in ((None,) if layout == "schema" else P["pI"]):
+                    out.append(("prefix", tier, mode, layout, p0, pI))
+    return out
+
+
+def px_self_check():
+    """The reference's table of published names must be what the packages under vz/harness really publish."""
+    import importlib
+    for mod, names in PX.PUBLISHED.items():
+        m = importlib.import_module(mod)
+        pub = tuple(sorted(n for n in vars(m) if not n.startswith("_") and callable(getattr(m, n))))
+        if pub != tuple(sorted(names)):
+            raise core.HarnessError("vz.ref.schemaprefix.PUBLISHED[%r] = %r but the module publishes %r" % (mod, names, pub))
+        sub = tuple(sorted(n for n in os.listdir(os.path.dirname(m.__file__))
+                           if os.path.isdir(os.path.join(os.path.dirname(m.__file__), n)) and not n.startswith("_")))
+        if sub != tuple(sorted(PX.SUBPACKAGES[mod])):
+            raise core.HarnessError("sub-packages of %s: %r, reference says %r" % (mod, sub, PX.SUBPACKAGES[mod]))
+
+
+def _px_one(acc, desc, effs, fill, slot_ids, mode):
+    files = PX.render(desc, fill)
+    expect, clause, per = PX.judge(desc, fill, effs)
+    acc.current = files
+    o = observe_files(files, PX.MAIN)
+    acc.ev()
+    acc.transitions += 1
+    acc.cls("prefix:%s:%s" % (expect, o[0] if o[0] != "internal" else "raised-" + o[1].get("class", "?")))
+    acc.clause("prefix:" + clause)
+    depends = False
+    for elem, attr, name, eff, e, _ in per:
+        if not name.startswith("."):
+            continue
+        for other in PX.other_prefixes(desc, effs, elem):
+            if (PX.judge_name(name, other)[0] == "accept") != (e == "accept"):
+                depends = True
+                acc.extra["prefix_verdict_depends_on_whose_prefix:" + ("accept" if e == "accept" else "refuse")] += 1
+                break
+        # the class of names written ON the element that carries the prefix= attribute (rather than below it)
+        own = desc[PX.TYPE_PREFIX_VAR[elem]] if elem in PX.TYPE_PREFIX_VAR else None
+        if own and attr in ("datatype", "keytype"):
+            outer = effs[[f[2] for f in PX.LAYOUTS[desc[0]] if elem in f[5]][0]]
+            if (PX.judge_name(name, outer)[0] == "accept") != (e == "accept"):
+                acc.extra["prefix_name_on_the_prefix_bearing_element:%s:%s" % (
+                    attr, "accept" if e == "accept" else "refuse")] += 1
+    if depends:
+        acc.nt()
+    for sid in slot_ids:
+        acc.extra["prefix_slot:" + sid] += 1
+    case = {"document": "prefix-resolution", "files": files, "main": PX.MAIN, "expect": expect, "layout": desc[0],
+            "prefixes": {"p0": desc[1], "pI": desc[2], "t1": desc[3], "d1": desc[4], "t2": desc[5]},
+            "names": [[p[0], p[1], p[2], p[3], p[4]] for p in per]}
+    acc.sample(lambda: dict(case, outcome=o[0], clause=clause))
+    bad = judge_outcome(o, expect)
+    if bad:
+        acc.violation(bad, case, o, EXPECT_TEXT[expect],
+                      tags={"kind": bad, "axis": "prefix-resolution", "layout": desc[0], "slot": "+".join(slot_ids),
+                            "clause": clause, "outcome": o[0] if o[0] != "internal" else o[1].get("class")})
+
+
+def explore_prefix(arg, acc):
+    _, tier, mode, layout, p0, pI = arg
+    P = px_params(tier if mode == "single" else "quick")
+    sl = PX.slots(layout)
+    for desc in px_descs(P, layout, p0, pI):
+        effs = PX.site_prefixes(desc)
+        if effs is None:
+            acc.extra["prefix_not_generated:relative-prefix-where-no-prefix-is-set"] += 1
+            continue
+        if mode == "single":
+            acc.states += 1
+            _px_one(acc, desc, effs, {}, (), mode)               # no dotted name at all: must load
+            for sid, elem, attr in sl:
+                for name in P["names"]:
+                    _px_one(acc, desc, effs, {(elem, attr): name}, (sid,), mode)
+        else:
+            for (s1, e1, a1), (s2, e2, a2) in itertools.combinations(sl, 2):
+                for n1 in PX.PAIR_NAMES:
+                    for n2 in PX.PAIR_NAMES:
+                        _px_one(acc, desc, effs, {(e1, a1): n1, (e2, a2): n2}, (s1, s2), mode)
+    acc.traces = acc.transitions
+    return acc
+
 
 def shard(arg, acc):
     kind = arg[0]
@@ -1295,6 +1426,8 @@ def shard(arg, acc):
         explore_spelling(arg, acc)
     elif kind == "xfile":
         explore_xfile(arg, acc)
+    elif kind == "prefix":
+        explore_prefix(arg, acc)
     else:
         _, tier = arg
         P = pkgs.Packages()
@@ -1339,6 +1472,9 @@ def run(tier):
     cshards = ctx_shards(tier)
     sshards = spell_shards(tier)
     xshards = x_shards(tier)
+    pshards = px_shards(tier)
+    px_self_check()
+    PP = px_params(tier)
     SP = spell_params(tier)
     quick = tier == "quick"
     run = core.Run(
@@ -1381,9 +1517,27 @@ def run(tier):
              "the base of an extending section type%s), the container under test <= 2 (%s); the extending schema's own items are judged under "
              "its keytype= when present, else the bases' common key type (conflicting bases without an own keytype => "
              "SchemaError), with the bases' items as inherited entries.  "
+             "(7) prefix resolution of dotted datatype names: documents made of a document element with prefix p0 holding a "
+             "section type t1 (prefix pt1; a key and a multikey), a type d1 derived from t1 (prefix pd; a key), a later sibling "
+             "type t2 (prefix pt2; a key) and, after the types, the schema's own key and multikey - in three layouts: all in one "
+             "<schema>; the types in a <component> (prefix p0) imported by a schema with prefix pI; t1 and an own key in a "
+             "base schema file (prefix p0) that a schema with prefix pI, holding d1 / t2 / the items, extends.  EVERY "
+             "combination of p0 in %s, pI in %s, pt1 in %s, pd in %s, pt2 in %s (a relative prefix where none is set: not "
+             "generated) x EVERY datatype-bearing attribute (datatype and keytype of each <schema> and of each of the "
+             "three types - the element that carries prefix= itself -, datatype of every key / multikey: 14-17 slots per "
+             "layout) x EVERY name of %s, one slot filled at a time%s; the names refer to the package trees "
+             "vz.harness.c10r / c10s whose 5 levels each publish one name found at no other level (only_*) and one found at "
+             "every level (conv).  Reference (vz.ref.schemaprefix, from docs/writing-schema.rst; its table of published names "
+             "is compared with the packages before the run): a name is resolved against the EFFECTIVE prefix of the element "
+             "it is written on (own prefix=, relative ones appended to the containing context's; else the containing "
+             "context's; each file is a context of its own); resolves to a published name / stock name => accepted; relative "
+             "name where no prefix is set => SchemaError; well-formed name that names nothing under the effective prefix => "
+             "NOT accepted (SchemaError or the exception of the failed import, at load time); every document also without any "
+             "dotted name => accepted.  "
              "states = base documents, transitions = documents loaded.  Non-trivial = edit site below schema top level "
              "(inside a section type, a derived type or the component) / a container preceded by a non-empty one / a spelled "
-             "value of >= 2 characters / every cross-file document."
+             "value of >= 2 characters / every cross-file document / a relative name whose verdict would be different under "
+             "another effective prefix that is in play in the same document(s)."
              % (len(docs), len(VIOLATING), "" if quick else ", and every pair of violating edits at unrelated elements",
                 len(PRESERVING), len(ndocs) + 1,
                 " (last position)" if quick else " (first and last position, with and without stray text inside it)",
@@ -1400,7 +1554,11 @@ def run(tier):
                 [k or "default" for k in SP["keytypes"]], SP["bare"], [c for c in SP["alphabet"]], SP["ins"],
                 sorted(set(l for l, _ in x_layouts(tier))),
                 "{absent, basic-key, identifier}" if quick else "{absent, basic-key, identifier, a case-folding dotted-name key type}",
-                ", none or one key with two bases / a chain of bases" if quick else "", "unordered" if quick else "ordered"),
+                ", none or one key with two bases / a chain of bases" if quick else "", "unordered" if quick else "ordered",
+                [x or "none" for x in PP["p0"]], [x or "none" for x in PP["pI"]], [x or "none" for x in PP["pt1"]],
+                [x or "none" for x in PP["pd"]], [x or "none" for x in PP["pt2"]], list(PP["names"]),
+                "" if quick else "; and, over the quick tier's prefix combinations, EVERY PAIR of slots filled at once with "
+                "every pair of names of %s" % (list(PX.PAIR_NAMES),)),
         bounds={"documents": len(docs) + 1, "violating_pairs_per_document_cap": PAIR_CAP if tier != "quick" else 0, "violating_operators": [o[0] for o in VIOLATING],
                 "preserving_operators": [o[0] for o in PRESERVING], "pairs": tier != "quick",
                 "nesting_documents": [n for n, _ in ndocs] + ["component"] if quick else len(ndocs) + 1,
@@ -1415,7 +1573,12 @@ def run(tier):
                 "spelling_stem_insertions_max_length": SP["ins"],
                 "spelling_keytypes": [k or "default" for k in SP["keytypes"]], "spelling_shards": len(sshards),
                 "cross_file_layouts": sorted(set(l for l, _ in x_layouts(tier))),
-                "cross_file_keytype_combinations": len(list(x_layouts(tier))), "cross_file_shards": len(xshards)},
+                "cross_file_keytype_combinations": len(list(x_layouts(tier))), "cross_file_shards": len(xshards),
+                "prefix_layouts": sorted(PX.LAYOUTS), "prefix_slots": {l: [x[0] for x in PX.slots(l)] for l in sorted(PX.LAYOUTS)},
+                "prefix_alphabets": {k: [x or "none" for x in v] for k, v in sorted(PP.items())},
+                "prefix_published_names": {k: list(v) for k, v in sorted(PX.PUBLISHED.items())},
+                "prefix_slots_filled_at_once": 1 if quick else 2, "prefix_pair_names": [] if quick else list(PX.PAIR_NAMES),
+                "prefix_shards": len(pshards)},
         assumptions=["each violating operator breaks a rule of the statement by construction at the site it is applied to",
                      "not generated (unspecified): <default> elements inside a plain <key>, required with <default> "
                      "elements on multikey / wildcard, malformed XML, a second <description> (cardinality is not "
@@ -1427,12 +1590,17 @@ def run(tier):
                      "spelling axis: every pattern of the documentation is read as matching the whole value; whether "
                      "'identifier' admits non-ASCII Python identifiers is open (DESIGN C09); a malformed key= of a "
                      "<default> must be refused at load time but the error class is not asserted",
+                     "prefix axis: a dotted name that is well formed but names nothing must not be accepted; the "
+                     "class of the exception is not asserted beyond SchemaError / ConfigurationError / ImportError / "
+                     "AttributeError (Registry.get: 'an (unspecified) exception'); a relative prefix= where no prefix is "
+                     "set and names that resolve to a module are not generated; <import package='.rel'> is not part "
+                     "of the statement's rules (C11 / C12)",
                      "a key and a section sharing one normalised name in a container: not decided by the statement "
                      "(checked differentially); a derived type changing the key type over inherited names that are not "
                      "fixed points of it: unspecified (DESIGN C11)"])
     shards = [("schema", n, x, tier) for n, x in docs] + [("component", tier)] + \
              [("nest", n, x, tier) for n, x in ndocs] + [("text", n, x, tier) for n, x in tdocs] + cshards + \
-             xshards + sshards
+             xshards + sshards + pshards
     core.pmap(shard, shards, run.acc, shard_budget=3000.0)
     a = run.acc
     missing = [o[0] for o in VIOLATING if not a.clauses.get(o[0])]
@@ -1472,6 +1640,22 @@ def run(tier):
                 "cross-file context: few decided documents")
     run.require(a.clauses.get("cross-file:conflicting-base-keytypes-and-no-own-keytype", 0) > 100,
                 "cross-file context: few conflicting base key types")
+    # wave 5 guards: axis P (prefix resolution) was really exercised
+    for l in sorted(PX.LAYOUTS):
+        unused = [x[0] for x in PX.slots(l) if a.extra.get("prefix_slot:" + x[0], 0) < 500]
+        run.require(not unused, "prefix resolution: slots hardly exercised in layout %s: %s" % (l, unused))
+    run.require(a.classes.get("prefix:accept:accepted", 0) > 10000 and a.classes.get("prefix:reject:schema-error", 0) > 3000
+                and sum(v for k, v in a.classes.items() if k.startswith("prefix:unfound:")) > 10000,
+                "prefix resolution: few decided documents")
+    run.require(a.extra.get("prefix_verdict_depends_on_whose_prefix:accept", 0) > 5000 and
+                a.extra.get("prefix_verdict_depends_on_whose_prefix:refuse", 0) > 5000,
+                "prefix resolution: few relative names whose verdict would be different under another prefix of the same "
+                "document(s)")
+    for attr in ("datatype", "keytype"):
+        for v in ("accept", "refuse"):
+            run.require(a.extra.get("prefix_name_on_the_prefix_bearing_element:%s:%s" % (attr, v), 0) > 400,
+                        "prefix resolution: few %s names ON a section type with its own prefix= whose verdict (%s) would be "
+                        "different under the enclosing prefix" % (attr, v))
     return run
 
 
